@@ -17,11 +17,14 @@ MANIFEST = {
          "write on behalf of a closed handle.  The model is tied to the working tree by (A) the instruction order extracted "
          "from async.c being proved equal to the model's and (B) running the real async.c under a serialising scheduler, "
          "exhaustively for small configurations and on random schedules, comparing every state with the model and "
-         "evaluating deadlock / callback-count / use-after-close monitors on the implementation itself.",
+         "evaluating deadlock / callback-count / use-after-close monitors on the implementation itself; size classes (every "
+         "one of up to 150 handles under the scheduler, up to 20000 on the real loop, pending in the same wake-up pass) and "
+         "handles without a callback are part of the generated inputs.",
  "note": "Trusted: Lean kernel, clang/ASan, the scheduler harness (atomics re-defined as schedule points, eventfd simulated "
          "as a counter, epoll readiness = counter > 0).  Sequential consistency is assumed: the relaxed first load and C11 "
          "acquire/release subtleties are not modelled; the pipe fallback (non-Linux) and eventfd counter overflow are not "
-         "modelled; async_cb == NULL handles are not exercised.  uv_close from inside an async callback and between polls "
+         "modelled.  async_cb == NULL handles are exercised as handles whose (empty) callback returns at once; the delivery of a send "
+         "to such a handle is observed as the woken loop thread consuming the flag (scheduler) / a loop iteration (real loop).  uv_close from inside an async callback and between polls "
          "is modelled; uv_async_init while the loop is scanning is not.",
  "design": "DESIGN.md §3 C09",
  "technique": "Lean 4 proof over executable interleaving model + instruction-order extraction (Tie A) + serialising-scheduler "
@@ -139,10 +142,12 @@ def gen_async_seq(ctx):
 
 
 # ----------------------------------------------------------------------------- configurations
-def cfg_line(nh, close, senders, sig=(), free="safe", eintr=0, cap=None, fork=0, stop=0, spin=0):
-    return ("cfg nh=%d close=%s senders=%s sig=%s free=%s eintr=%d cap=%s fork=%d stop=%d spin=%d" % (
+def cfg_line(nh, close, senders, sig=(), free="safe", eintr=0, cap=None, fork=0, stop=0, spin=0, nocb=()):
+    """nocb: handles initialised with async_cb == NULL (the documented "just wake the loop" use)"""
+    return ("cfg nh=%d close=%s senders=%s sig=%s free=%s eintr=%d cap=%s fork=%d stop=%d spin=%d nocb=%s" % (
         nh, ",".join(map(str, close)) or "-", ";".join(",".join(map(str, p)) for p in senders) or "-",
-        ",".join(f"{t}:{v}" for t, v in sig) or "-", free, eintr, "-" if cap is None else cap, fork, stop, spin))
+        ",".join(f"{t}:{v}" for t, v in sig) or "-", free, eintr, "-" if cap is None else cap, fork, stop, spin,
+        ",".join(map(str, nocb)) or "-"))
 
 
 DFS_QUICK = [
@@ -164,6 +169,9 @@ DFS_QUICK = [
     cfg_line(2, [], [[0], [1]], stop=1),              # uv_stop() from an async callback with both handles signalled; the loop is run again
     cfg_line(2, [1], [[0, 1, 0]], stop=2),
     cfg_line(1, [0], [[0], [0]], spin=3),             # the closer spins while a sender is frozen inside the busy section (any point)
+    cfg_line(1, [], [[0, 0], [0]], nocb=[0]),         # a handle without a callback: repeated sends, each must wake the loop again
+    cfg_line(2, [0], [[0, 1], [1]], nocb=[0]),        # ... next to a handle with a callback (which may close it from its callback)
+    cfg_line(2, [1], [[0, 0, 1]], nocb=[0, 1], fork=1, eintr=1),
 ]
 DFS_THOROUGH = [
     cfg_line(1, [0], [[0, 0], [0]]),
@@ -183,6 +191,11 @@ DFS_THOROUGH = [
     cfg_line(1, [0], [[0, 0], [0]], fork=1, eintr=1, cap=1),
     cfg_line(2, [1], [[0, 1], [1, 0]], stop=1),
     cfg_line(2, [0], [[0, 1], [1]], stop=1, fork=1, eintr=1),
+    cfg_line(1, [0], [[0, 0], [0, 0]], nocb=[0]),
+    cfg_line(2, [0], [[0, 1], [1, 0]], nocb=[0]),
+    cfg_line(3, [2], [[0, 1, 2], [2, 1, 0]], nocb=[1, 2]),
+    cfg_line(2, [], [[0, 1, 0], [1]], nocb=[1], sig=[(1, "l")], stop=1),
+    cfg_line(2, [0], [[0, 1, 0]], nocb=[0], spin=998, cap=1, eintr=1),
 ]
 PROBE_FREE_IN_CB = cfg_line(1, [0], [[0]], free="cb")
 
@@ -197,9 +210,43 @@ def gen_rand_cfg(rng):
         t = rng.below(ns)
         v = rng.choice(["l"] + [x for x in range(ns) if x != t])
         sig = [(t, v)]
+    nocb = [h for h in range(nh) if rng.chance(1, 3)] if rng.chance(1, 2) else []
     return cfg_line(nh, close, senders, sig, eintr=rng.choice([0, 0, 1, 2, 3]), cap=rng.choice([None, None, 1, 2]),
                     fork=rng.choice([0, 0, 1, 2]), stop=rng.choice([0, 0, 1, 2]),
-                    spin=rng.choice([0, 0, 0, 0, 0, 0, 1, 1100]))
+                    spin=rng.choice([0, 0, 0, 0, 0, 0, 1, 1100]), nocb=nocb)
+
+
+# ----------------------------------------------------------------------------- size class: many handles pending in one pass
+def burst_case(rng, n, rounds=2, split=None):
+    """n handles, one sender sending once to each of them `rounds` times; every send of a round is issued before the loop
+    scans (all n pending in the same wake-up pass).  split=k: the loop wakes up and drains the eventfd after the k-th send
+    of the round, the remaining sends land while uv__async_io is about to scan.  A few handles have no callback."""
+    nocb = sorted({rng.below(n) for _ in range(max(1, n // 8))})
+    order = list(range(n))
+    prog = []
+    for r in range(rounds):
+        prog += order if r % 2 == 0 else order[::-1]
+    cfg = cfg_line(n, [], [prog], nocb=nocb)
+    toks = []
+    for r in range(rounds):
+        if split is None:
+            toks += ["s0"] * (6 * n)
+            toks += ["l"] * (2 + 2 * n - len(nocb))
+        else:
+            k = max(1, min(n - 1, split))
+            toks += ["s0"] * (6 * k) + ["l", "l"] + ["s0"] * (6 * (n - k))
+            toks += ["l"] * (2 * n - len(nocb))              # first pass: every handle is scanned (the late sends are seen already)
+            toks += ["l"] * (2 + n)                           # the late sends wrote the eventfd again: a second, empty pass
+    return cfg, " ".join(toks)
+
+
+def burst_rand_cfg(rng, n):
+    """n handles, two senders with long programs over all of them, a few handles closable / without a callback"""
+    nocb = sorted({rng.below(n) for _ in range(n // 6)})
+    close = sorted({rng.below(n) for _ in range(3)})
+    a = list(range(n)); b = [rng.below(n) for _ in range(n)]
+    return cfg_line(n, close, [a + a[::-1], b], nocb=nocb, stop=rng.choice([0, 1]), fork=rng.choice([0, 0, 1]),
+                    eintr=rng.choice([0, 2]), cap=rng.choice([None, None, 1, 40]))
 
 
 # ----------------------------------------------------------------------------- running and comparing
@@ -306,6 +353,32 @@ def run_batch(ctx, exe, text, label, compare=True):
     return ok, viols, stats
 
 
+def real_size_case(ctx, exe, kind, args):
+    """realmany / realnull monitors of the harness (real loop, no scheduler); returns ((signature, text) | None, output)"""
+    rc, out, err = ctx.run(exe, text=f"{kind} {args}\n", timeout=120)
+    if kind == "realmany":
+        rows = [dict(kv.split("=") for kv in l.split()[1:]) for l in out.splitlines() if l.startswith("realmany ")]
+        if rc != 0 or not rows:
+            return ("many-handles-harness-crash", f"harness rc={rc}: {_short(err)} {out[-300:]}"), out
+        for r in rows:
+            if r["ok"] != r["nh"]:
+                missing = int(r["nh"]) - int(r["ok"])
+                return ("many-handles-send-without-callback",
+                        f"round {r['round']}: every handle got one send per round while its previous send had been delivered, so "
+                        f"{r['expect']} callbacks per handle are owed; {missing} of {r['nh']} handles differ (callbacks per handle "
+                        f"min={r['min']} max={r['max']}, first differing handle #{r['firstbad']})"
+                        + (f"; the loop made no progress in the last of {r['passes']} UV_RUN_NOWAIT passes (it would block)" if r["mode"] == "0" else
+                           "; the loop stayed blocked until the guard timer")), out
+        return None, out
+    m = re.search(r"realnull nh=(\d+) sends=(\d+) woken=(\d+) failed_at=(\d+)", out)
+    if rc != 0 or not m:
+        return ("null-cb-harness-crash", f"harness rc={rc}: {_short(err)} {out[-300:]}"), out
+    if m.group(3) != m.group(2):
+        return ("null-cb-send-did-not-wake-loop",
+                f"send #{m.group(4)} did not wake the loop blocked in uv_run() within 1.2 s (no loop iteration observed by a uv_check_t)"), out
+    return None, out
+
+
 def _short(s):
     ls = [l for l in s.splitlines() if l.strip()]
     head = [l for l in ls if "ERROR" in l or "runtime error" in l or "SUMMARY" in l][:3]
@@ -320,7 +393,7 @@ def shrink(ctx, exe, sig, rep):
         g = "noguard " if rep.get("noguard") else ""
         _, v, _ = run_batch(ctx, exe, f"{rep['cfg']}\nsched {g}{' '.join(ts)}\n", "shrink", compare=False)
         return any(s == sig for s, _, _ in v)
-    if not toks or not fails(toks):
+    if not toks or len(toks) > 1500 or not fails(toks):
         return rep
     i = 0
     while i < len(toks) and len(toks) > 1:
@@ -380,6 +453,13 @@ def run(ctx):
             if "run3 cbA=1 cbB=1" not in out or "resend cbA=2 cbB=2" not in out:
                 ctx.violation("send-lost-after-uv-stop", "replay: " + out[-300:], rep)
             return
+        if "realmany" in rep or "realnull" in rep:
+            kind = "realmany" if "realmany" in rep else "realnull"
+            bad, out = real_size_case(ctx, exe, kind, rep[kind])
+            print(out)
+            if bad:
+                ctx.violation(bad[0], "replay: " + bad[1], rep)
+            return
         if "realfork" in rep:
             rc, out, err = ctx.run(exe, text=f"realfork {rep['realfork']}\n", timeout=60)
             print(out + err[-500:])
@@ -420,8 +500,44 @@ def run(ctx):
     for n in (1, 996, 997, 998, 2000, 5000):
         corpus.append((cfg_line(1, [0], [[0]], spin=n), "s0 s0 s0 s0 c0 l p s0 s0 l f"))
         corpus.append((cfg_line(2, [0], [[0], [0, 1]], spin=n), "s0 s0 s0 s1 s1 s1 s1 c0 l p s1 s0 p s0 s0 s1 l f"))
+    # handles without a callback: the second and third send must wake the loop again (flag consumed although nothing is called)
+    corpus.append((cfg_line(1, [], [[0, 0, 0]], nocb=[0]), "s0 s0 s0 s0 s0 s0 l l l s0 s0 s0 s0 s0 s0 l l l s0 s0 s0 s0 s0 s0 l l l"))
+    corpus.append((cfg_line(2, [1], [[0, 1, 0, 1]], nocb=[0]), "s0 s0 s0 s0 s0 s0 s0 s0 s0 s0 s0 s0 l l l l l s0 s0 s0 s0 s0 s0 s0 s0 s0 s0 s0 s0 l l l l c1 l l l f"))
     for c, sc in corpus:
         batch(f"{c}\nsched {sc}\n", "corpus")
+
+    # size class: many handles with a send owed in the same wake-up pass (around every power of two up to the harness limit)
+    sizes = [33, 40] if ctx.quick else [15, 16, 17, 31, 32, 33, 34, 63, 64, 65, 100, 127, 128, 129, 150]
+    for n in sizes:
+        batch("%s\nsched %s\n" % burst_case(ctx.rng, n), f"burst-{n}")
+        batch("%s\nsched %s\n" % burst_case(ctx.rng, n, split=ctx.rng.range(1, n - 1)), f"burst-split-{n}")
+    for n in ([ctx.rng.range(33, 48)] if ctx.quick else [ctx.rng.range(33, 48), ctx.rng.range(65, 90), ctx.rng.range(129, 150)]):
+        batch(f"{burst_rand_cfg(ctx.rng, n)}\nrand {ctx.rng.next() % (2**62)} {ctx.scale(3, 8)}\n", f"burst-rand-{n}")
+    ctx.notes["burst_sizes"] = sizes
+
+    # the same size class on the real loop (real eventfd, real epoll, no scheduler): nh handles [+ nfds other ready descriptors]
+    many = [(33, 0, 0), (40, 0, 1), (1100, 0, 0), (70, 1100, 0)]
+    if not ctx.quick:
+        many += [(n, 0, m) for n in (31, 32, 34, 64, 65, 1023, 1024, 1025, 2049) for m in (0, 1)]
+        many += [(20000, 0, 0), (40, 1023, 0), (40, 1024, 1), (1030, 1030, 1), (5, 2100, 0)]
+    for nh_, nfds, mode in many:
+        ctx.count()
+        bad, _ = real_size_case(ctx, exe, "realmany", f"{nh_} {nfds} {mode}")
+        if bad:
+            ctx.violation(bad[0], f"C09 (real loop, {nh_} async handles, {nfds} other ready descriptors, sends issued "
+                          f"{'by the loop thread between polls' if mode == 0 else 'by a second thread while the loop is blocked in uv_run'}) {bad[1]}",
+                          {"realmany": f"{nh_} {nfds} {mode}"})
+        else:
+            ctx.validated()
+    for nh_, sends in ([(1, 3), (3, 7)] if ctx.quick else [(1, 3), (1, 12), (3, 7), (40, 90)]):
+        ctx.count()
+        bad, _ = real_size_case(ctx, exe, "realnull", f"{nh_} {sends}")
+        if bad:
+            ctx.violation(bad[0], f"C09 (real loop, {nh_} async handles initialised with async_cb == NULL, {sends} consecutive sends from "
+                          f"another thread, each while the loop is blocked in uv_run) {bad[1]}", {"realnull": f"{nh_} {sends}"})
+        else:
+            ctx.validated()
+    ctx.notes["real_loop_sizes"] = [f"{a}/{b}/{c}" for a, b, c in many]
 
     # real processes: fork() + uv_loop_fork() in the child with the real eventfd/epoll (no scheduler)
     for variant in (0, 1, 2):
@@ -500,6 +616,8 @@ def run(ctx):
                                f"schedules (time-bounded): " + ("failing schedule found" if len(ctx.violations) > found else "no failing schedule"))
     ctx.cov["rule"] = ("case = one scheduler step of the real async.c compared with the model (exhaustive DFS with visited-state "
                        "pruning over the listed small configurations; random schedules over random configurations of 1-3 handles, "
-                       "1-4 senders, optional uv_close and signal-handler senders); non-trivial = execution path with >= 2 context "
+                       "1-4 senders, optional uv_close, signal-handler senders and handles without a callback; bursts of sends to "
+                       "every one of 15..150 handles before / while the loop scans; real-loop runs with up to 20000 handles and up to "
+                       "2100 other ready descriptors); non-trivial = execution path with >= 2 context "
                        "switches that preempt a thread inside uv_async_send / uv__async_io / uv_close, distinct by action string")
     ctx.sample({"cfg": corpus[1][0], "sched": corpus[1][1]})
